@@ -341,8 +341,14 @@ def pred_bounds(case, ctx):
     iv2 = ctx.call(util.boundaries_to_intervals, back)
     if np.asarray(iv2).shape != np.asarray(iv).shape or not np.all(np.abs(np.asarray(iv2) - np.asarray(iv)) <= 5.0000001e-6):
         raise Violation("boundaries_to_intervals(intervals_to_boundaries(I)) != I for I=%r" % (exp,))
+    rev = b[::-1]
+    if all(abs(x - y) <= 1e-8 + 1e-5 * abs(y) for x, y in zip(rev, b)):
+        # the library compares with np.allclose: boundaries that differ by less than its tolerance (e.g. 29.99999 and 30.0) are
+        # "the same" for it in either order - nothing is claimed about them
+        ctx.skip("reversed boundaries are within np.allclose of the sorted ones")
+        return False
     try:
-        util.boundaries_to_intervals(np.array(b[::-1]))
+        util.boundaries_to_intervals(np.array(rev))
     except ValueError:
         pass
     except Exception as e:
